@@ -157,6 +157,13 @@ class Prop(common.PropertyCheck):
                 # padding after the last delimiter of the primary TEXT; with TSDA and a leading delimiter the next byte in the file is the delimiter
                 'text_trailer': rng.choice(['', '', '   ', ' ', '\x00\x00']), 'pad_data': rng.choice([0, 0, 3])}}
 
+        # whole files whose supplemental TEXT segment cannot be paired: refused (only an unparseable ANALYSIS segment is tolerated)
+        for i, raw in enumerate(['{d}SK1{d}sv1{d}SK2{d}', '{d}{d}SK1{d}sv1{d}', '{d}SK1{d}{d}sv1{d}', '{d}a{d}']):
+            for d in (47, 124):
+                yield {'k': 'file', 'bad_stext': True, 'spec': {
+                    'version': ['FCS3.0', 'FCS3.1'][i % 2], 'delim': chr(d), 'datatype': 'I', 'byteord': '1,2,3,4', 'widths': [8], 'ranges': [256],
+                    'events': [[1], [2]], 'extra': [['K1', 'v1']], 'stext': [['SK', 'sv']], 'raw_stext': raw.format(d=chr(d)),
+                    'order': ['TSDA', 'TDAS', 'STDA'][i % 3], 'analysis': None, 'pad_data': 0}}
         # line breaks: CR / LF are ordinary characters (also right after a delimiter, at the start of a keyword or value, and as the delimiter)
         for _ in range(self.budget(1200, 12000)):
             d = rng.choice([47, 124, 10, 13, 47, 33])
@@ -241,6 +248,11 @@ class Prop(common.PropertyCheck):
 
     # ---- oracle --------------------------------------------------------------
     def oracle(self, case, impl):
+        if case.get('bad_stext'):
+            if str(impl.get('exc', '')).startswith('ValueError'):
+                return None
+            return 'a supplemental TEXT segment that cannot be paired (%r) was not refused with ValueError: %s' % (
+                case['spec']['raw_stext'], impl.get('exc') or 'loaded with keywords %s' % impl.get('text'))
         if 'exc' in impl:
             return 'unexpected exception %s' % impl['exc']
         if case['k'] == 'seg':
